@@ -161,7 +161,7 @@ Section LRIter.
             | None => RReturned VNil (dedupe [ref_perr c msg_invalid_entrypoint pos0 None []]) mu0
             | Some r =>
                 let m0 := land c None 0 mu0 in
-                match lreval fuel [] None false (ERef 0%N en) [] (mkSig 0 []) m0 with
+                match lreval fuel [] None false (ERef 0%N en) [] (mkSig 0 (o_initstate (rO c))) m0 with
                 | ROut => RDiverged
                 | RPanic pv m pos R =>
                     if o_recover (rO c)
